@@ -155,7 +155,7 @@ fn gen_inputs(r: &mut StdRng, files: &Files, root: &Path) -> Vec<String> {
                 v.push(o.clone());
                 s.clone()
             }
-            10 => "nosuch.txt".to_string(),
+            10 => ["nosuch.txt", "a/static.txt", "z/static.txt"][r.gen_range(0..3)].to_string(),
             11 => "a/nosuch.txt.txtpp".to_string(),
             13 => {
                 // the same file through a spelling with `..`
@@ -364,6 +364,13 @@ fn check(ctx: &mut Ctx, case: &Case, mlog: &Path, via_cli: bool) {
                         if got != want && observed == *exp {
                             ctx.violation(format!("C11:{mname}:marker-count"), format!("source {s} executed its marker command {got} times (expected {want}); inputs {inputs:?}"), cj());
                         }
+                    }
+                }
+                // nothing but outputs of the processed sources may change (look-alikes such as `.txtpp` included)
+                for (p, e) in &before.files {
+                    let is_output_of_expected = exp.iter().any(|s| model::output_of(s).as_deref() == Some(p.as_str()));
+                    if !is_output_of_expected && after.files.get(p).map(|x| &x.bytes) != Some(&e.bytes) {
+                        ctx.violation(format!("C11:{mname}:touched-non-output"), format!("{p} existed before the run, is not the output of a processed source, and was {}", if after.files.contains_key(p) { "modified" } else { "deleted" }), cj());
                     }
                 }
                 if matches!(case.mode, Mode::Build | Mode::InMemoryBuild) {
